@@ -17,7 +17,7 @@ const ARGV_ROOTS: [&str; 15] = [
     "r", "./r", "r/", "r//", "r/.", "d/../r", "ABS", "missing", "f", "lr", "..//w/r", "lx", "lr/", "(old)", "!keep",
 ];
 /// additional names only -files0-from can carry
-const FILES0_ONLY: [&str; 3] = ["", "-dash", "new\nline"];
+const FILES0_ONLY: [&str; 5] = ["", "-dash", "new\nline", " ", "\n"];
 
 fn bounds(t: Tier) -> usize {
     t.pick(2, 5)
@@ -54,6 +54,10 @@ fn c18_fs() -> Fs {
     fs.add(dash, "x", K::File);
     let nl = fs.add(w, "new\nline", K::Dir);
     fs.add(nl, "y", K::File);
+    // names made of blanks only are names too
+    let sp = fs.add(w, " ", K::Dir);
+    fs.add(sp, "in", K::File);
+    fs.add(w, "\n", K::File);
     fs
 }
 
